@@ -482,7 +482,11 @@ def gen_c16(rnd, n, thorough=False):
             lines += fill_ops(rnd, 'd/a.wsp', layout, m, xff, density=0.4, inconsistent=False)
         elif destkind == 'mismatch':
             lines += fill_ops(rnd, 'd/a.wsp', [(s, nn + 2) for s, nn in layout], m, xff, density=0.4, inconsistent=False)
+        sum_dest_exists = rnd.chance(0.5)
+        if sum_dest_exists:
+            lines += ["create e/i1/sum.wsp %s m %d x %08x" % (fmt_layout(layout), m, xff), "sync e/i1/sum.wsp", "drop e/i1/sum.wsp"]
         hist = {}
+        written = {'sumcopy': sum_dest_exists and False}
         for _ in range(rnd.randint(4, 8)):
             sub = rnd.pick(['view', 'viewraw', 'diff', 'copy', 'sum', 'sumcopy', 'sumdiff', 'generate'])
             wk, frm, until = window(rnd, layout)
@@ -492,6 +496,17 @@ def gen_c16(rnd, n, thorough=False):
             to = {'none': 'file', 'textout_bad': 'bad', 'textout_full': 'full', 'textout_discard': 'discard'}[fault]
             if (srckind != 'ok' or destkind == 'mismatch') and archsel == 'out_of_range':
                 arch = -1            # two different failures of the two concurrent reads: not determined
+            if archsel == 'out_of_range' and ((sub == 'diff' and destkind == 'missing') or (sub == 'sumdiff' and not sum_dest_exists)):
+                arch = -1            # a missing destination and a failing source read: whichever fails first
+            if sub == 'diff' and srckind == 'corrupt' and destkind == 'missing':
+                sub = 'view'         # an unreadable source and a missing destination: whichever fails first
+            if to == 'full' and sub in ('copy', 'sumcopy'):
+                # whether the report outgrows the 4096-byte buffer must be clear-cut: only the first write to
+                # a destination (everything differs, or a window of a few seconds) goes to /dev/full
+                if written.get(sub):
+                    to = 'file'
+            if sub in ('copy', 'sumcopy'):
+                written[sub] = True
             if to == 'full' and sub in ('copy', 'sumcopy') and not (srckind != 'ok' or destkind == 'mismatch'):
                 # the report must be clearly shorter or clearly longer than the 4096-byte buffer
                 if dense and destkind in ('missing', 'fresh'):
